@@ -353,11 +353,18 @@ def trim(o):
 
 RULE = ("seeded generator. Layers 2-3: a discrete-event bottleneck simulator inside the Go harness (capacity, RTT, queue, random and burst "
         "loss, ack aggregation, app-limited phases, packet-number gaps, non-ack-eliciting packets, MTU raises; three profiles; clean / "
-        "lossy / probe-rtt / app-limited scenarios) drives the real bbrSender following quic-go's call discipline; after EVERY event the "
+        "lossy / probe-rtt / app-limited scenarios, plus the paths on which the property's two clamps bind: very slow bottlenecks "
+        "(20..200 KB/s, one per capacity band, run through DRAIN, PROBE_BW cycles and PROBE_RTT: pacing rate below the 64 KB/s floor), "
+        "senders built by newBbrSender with a small configured maximum / initial window (0.3..2 BDP) and one fat path (150..400 MB/s "
+        "x 80..150 ms) with NewBbrSender's real maximum: gain x BDP above the maximum window after STARTUP) "
+        "drives the real bbrSender following quic-go's call discipline; after EVERY event the "
         "harness checks on the implementation: no panic, 4*mds <= GetCongestionWindow <= max, bandwidthForPacer >= 65536, EntrySlotsUsed "
         "<= lastSent-leastUnacked+1, CanSend below 4*mds, pacer wake-up has budget, generated trace is quic_consistent; a sample of events "
-        "(all mode/recovery changes, losses, MTU raises + random) is dumped (fields before/after + oracle values) and recomputed by the "
-        "Coq model; the trace prefix is checked with the model's quic_consistent and replayed on the model queue. Layer 1: operation sequences on the real RingBuffer (push/pop/offset/front/back/clear; growth past capacity, "
+        "(mode/recovery/full-bandwidth changes, losses, MTU raises, events at which a clamp is binding - pacing rate below twice the "
+        "floor, window at the maximum or full-bandwidth target above it -, the event failing the verdict, + random; each class with its "
+        "own share of the budget) is dumped (fields before/after + oracle values + pacingRate field in bits/s) and recomputed by the "
+        "Coq model: the whole OnCongestionEventEx window update, calculateCongestionWindow on its own, GetCongestionWindow, and "
+        "bandwidthForPacer from the pacing rate (division by BytesPerSecond and floor done by the model); the trace prefix is checked with the model's quic_consistent and replayed on the model queue. Layer 1: operation sequences on the real RingBuffer (push/pop/offset/front/back/clear; growth past capacity, "
         "wrap-around, calls on empty), packetNumberIndexedQueue (emplace with gaps, out-of-order and nil emplace, get, remove out of order, "
         "RemoveUpTo; initial sizes 0..8 and the real 256) and WindowedFilter (max/min/extraAckedEvent instances; ties, expiry, wrap of "
         "the uint64 time difference), every return value and the raw state compared with the model after every step. "
@@ -373,7 +380,9 @@ LEVEL_TEXT = ("Machine-checked Coq theorems over a hand-written Gallina model of
               "Layer 1 (exact transcriptions of RingBuffer, packetNumberIndexedQueue, WindowedFilter): the ring refines a list queue, the "
               "indexed queue refines a finite map for EVERY operation sequence and never panics, its slots are exactly the live packet-number "
               "span (RemoveUpTo n leaves nothing below n), the max filter keeps its estimates ordered. Layer 2 (window clamps, recovery "
-              "window, round/recovery state, SetMaxDatagramSize rescaling with explicit int64/uint64 wraps, pacer floor, seed rule, pacer "
+              "window, round/recovery state, SetMaxDatagramSize rescaling with explicit int64/uint64 wraps, bandwidthForPacer with explicit units "
+              "(bits/s -> bytes/s through the float64 round trip, then the floor), calculateCongestionWindow's branch structure with each clamp "
+              "where the code has it, any newBbrSender initial/maximum window, seed rule, pacer "
               "wake-up arithmetic, the sampler's queue usage): for every event sequence and ALL values of the float-derived quantities "
               "(oracles) 4*mds <= GetCongestionWindow <= maxCongestionWindow, bandwidthForPacer >= 65536, no panic for non-decreasing "
               "datagram sizes, EntrySlotsUsed <= lastSent-leastUnacked+1 on every trace with increasing packet numbers, CanSend below 4*mds "
@@ -486,7 +495,16 @@ def run(ctx):
            "traces_validated_against_impl": compared, "model_impl_disagreements": len(mism), "input_classes": hist,
            "supporting_only": supporting,
            "sim_events_checked_on_impl": sum((o.get("stats") or {}).get("events", 0) for o in outs),
-           "sim_events_recomputed_in_coq": sum(len(o.get("dumps") or []) for o in outs)}
+           "sim_events_recomputed_in_coq": sum(len(o.get("dumps") or []) for c, o in zip(cases, outs) if to_coq(c, o) is not None),
+           "sim_events_pacing_floor_binding": sum((o.get("stats") or {}).get("floorEvents", 0) for o in outs),
+           "sim_events_window_cap_binding": sum((o.get("stats") or {}).get("capEvents", 0) for o in outs),
+           "sim_binding_events_recomputed_in_coq": sum((o.get("stats") or {}).get("bindDumps", 0) for o in outs),
+           "sims_leaving_startup_with_floor_binding": sum(1 for o in outs if (o.get("stats") or {}).get("floorEvents", 0) and
+                                                          len((o.get("stats") or {}).get("modes", [])) > 1),
+           "sims_leaving_startup_with_cap_binding": sum(1 for o in outs if (o.get("stats") or {}).get("capEvents", 0) and
+                                                        len((o.get("stats") or {}).get("modes", [])) > 1)}
+    if outs and not impl_bad and not (cov["sims_leaving_startup_with_floor_binding"] and cov["sims_leaving_startup_with_cap_binding"]):
+        ctx.say("WARNING: generator did not reach a post-STARTUP state with the pacing floor / the window cap binding")
     ctx.say("input classes: " + json.dumps(hist, sort_keys=True))
     return common.finish(ctx, pinfo, cov, violations, ASSUMPTIONS, trusted_extra=TRUSTED)
 
